@@ -321,10 +321,17 @@ def check_euclidian(inp):
 
 
 def check_algebra(inp):
+    from musiclang import Melody, Metric
+    from musiclang.library import s0, s1, s2, r as rest
     m = mk_metric(inp)
     a = list(inp['array'])
     L = len(a)
     n = inp['n']
+    # the metric has been *used* before it is transformed: a grid derived from it must behave like the same grid
+    # written afresh (seed C17-5 cached the beat durations on the instance and derived metrics by a shallow copy)
+    mel = s0 + s1.e + rest.e + s2
+    py_res(lambda: m.apply_to_melody(mel))
+    py_res(lambda: m.get_beat_durations())
     c = m.complementary()
     if [int(x) for x in c.array] != [1 - x for x in a] or [int(x) for x in c.complementary().array] != a:
         return {'aspect': 'complement', 'observed': (c.array, c.complementary().array), 'expected': ([1 - x for x in a], a)}
@@ -339,6 +346,12 @@ def check_algebra(inp):
     for q in (c, r, s, back):
         if (q.signature, F(q.tatum), q.nb_bars) != (m.signature, F(m.tatum), m.nb_bars):
             return {'aspect': 'params', 'observed': str((q.signature, q.tatum, q.nb_bars)), 'expected': 'unchanged'}
+    for name, q in (('complement', c), ('reverse', r), ('shift', s), ('shift-back', back)):
+        fresh = Metric([int(x) for x in q.array], signature=q.signature, tatum=q.tatum, nb_bars=q.nb_bars)
+        got = py_res(lambda: str(q.apply_to_melody(mel)) + ' | ' + str(q.get_beat_durations()))
+        exp = py_res(lambda: str(fresh.apply_to_melody(mel)) + ' | ' + str(fresh.get_beat_durations()))
+        if got != exp:
+            return {'aspect': 'derived-after-use:' + name, 'observed': got, 'expected': exp}
     return None
 
 
